@@ -22,7 +22,7 @@
    Plus the side condition on the regenerated policy used by the action-inertness theorem
    (content_sanitizers_ok), and the classifiers of the recorded findings D1 and D13 (second part of
    the file; those look at the template, not at the output).  Definitions only. *)
-From V Require Import lib.Base gen.GenPolicy spec.HtmlTok spec.HtmlSpec.
+From V Require Import lib.Base gen.GenPolicy gen.GenTemplate spec.HtmlTok spec.HtmlSpec.
 From V Require Import model.GoStrings model.TContext model.TSanitize model.TSanitizers model.TTree
      model.TEscapeText model.TEscaper.
 Local Open Scope N_scope.
@@ -84,6 +84,14 @@ Definition drop_comments (l : list stoken) : list stoken :=
   filter (fun k => match k with KComment _ => false | _ => true end) l.
 Definition same_structure_as_author (author o : bytes) : bool :=
   list_eqb stoken_eqb (drop_comments (fst (skel author))) (fst (skel o)) && hstate_eqb (snd (skel author)) (snd (skel o)).
+
+(* the elements whose body the engine keeps as text (special elements) must be elements whose body
+   EVERY HTML tokenizer reads as text, with scripting enabled or not: noscript is not one of them
+   (its body is markup for a user agent without scripting) *)
+Definition text_body_elements : list bytes :=
+  [B "script"; B "style"; B "textarea"; B "title"; B "xmp"; B "iframe"; B "noembed"; B "noframes"; B "plaintext"].
+Definition special_elements_ok : bool :=
+  forallb (fun e => mem_bytes e text_body_elements) GenTemplate.T_specialElements.
 
 (* ------------------------------------------------------------------ untrusted values *)
 
